@@ -288,6 +288,16 @@ pub fn fals_c07(rng: &mut Rng, thorough: bool) -> Fals {
             if xs.is_empty() {
                 return f;
             }
+            // hypothesis exp_ok of Theory/C07F32.v about the platform's expf, on the same strata
+            // (non-NaN inputs, both signs): +infinity or a finite non-negative value
+            for &x in &xs {
+                for v in [x, -x] {
+                    let e = v.exp();
+                    f.check("libm/expf-ok", !e.is_nan() && (e == f32::INFINITY || (e.is_finite() && e >= 0.0)),
+                            "expf returned NaN or a negative / -inf value on a non-NaN input (hypothesis exp_ok of the sigmoid range theorem)",
+                            || format!("expf({:e}) = {:e}", v, e));
+                }
+            }
             let t = t1(xs.clone());
             for a in acts {
                 let fun = act_fn(a);
